@@ -357,6 +357,9 @@ func mcCommand(r *hx.Rand, replying bool) []byte {
 	case k < 12: // storage command with its data block
 		verb := r.PickStr([]string{"set", "add", "replace", "append", "prepend", "cas"})
 		n := r.PickInt([]int{0, 1, 5, 5, 79, 80, 81, 200})
+		if r.Chance(1, 40) {
+			n = r.PickInt([]int{4000, 4090, 5000, 9000}) // beyond one bufio buffer
+		}
 		data := string(r.BytesFrom(n, alnum[:36]))
 		cnt := fmt.Sprint(n)
 		if !replying {
@@ -687,7 +690,9 @@ func main() {
 
 	distS, distR := map[string]int{}, map[string]int{}
 	extra := map[string]interface{}{"interval_ns": interval, "burst": burst}
-	// snmp payloads that would end the process are left out (see screen.go)
+	// snmp payloads are first handled in a child process (see screen.go): one that ends
+	// the process is not run here; its case is reported as a crash
+	fatalCase := map[int]string{}
 	var sp [][]byte
 	for _, in := range inputs {
 		if in.Part == "svc" && in.Svc == "snmp" {
@@ -703,23 +708,19 @@ func main() {
 			if inputs[i].Part != "svc" || inputs[i].Svc != "snmp" {
 				continue
 			}
-			var keep []Dgram
-			for _, d := range inputs[i].H {
+			for j, d := range inputs[i].H {
 				if fatal[n] {
-					distS["snmp:process-fatal-payload-left-out"]++
-					if _, ok := extra["snmp_process_fatal_witness"]; !ok {
-						extra["snmp_process_fatal_witness"] = fmt.Sprintf("%x", []byte(d.Payload))
+					distS["snmp:process-fatal-payload"]++
+					if _, ok := fatalCase[i]; !ok {
+						fatalCase[i] = fmt.Sprintf("datagram %d (%x) ends the whole process (seen in a child process with a 4 GiB address-space limit)", j, []byte(d.Payload))
 					}
-				} else {
-					keep = append(keep, d)
 				}
 				n++
 			}
-			inputs[i].H = keep
 		}
 	}
 	var svcCases, rateCases []hx.Case
-	for _, in := range inputs {
+	for inIdx, in := range inputs {
 		switch in.Part {
 		case "consts":
 			id := len(svcCases)
@@ -729,13 +730,16 @@ func main() {
 				Coq: fmt.Sprintf("CC (mkC %s %s %s)", hx.CoqN(uint64(id)), hx.CoqZ(interval), hx.CoqZ(int64(burst)))})
 		case "svc":
 			id := len(svcCases)
-			obs, crash := runCase(in)
+			var obs []DObs
+			var crash string
+			if why, bad := fatalCase[inIdx]; bad {
+				obs, crash = make([]DObs, len(in.H)), why
+			} else {
+				obs, crash = runCase(in)
+			}
 			exact := true
 			nrep, srcs := 0, map[string]bool{}
 			for i, d := range in.H {
-				if in.Svc == "memcached" && len(d.Payload) > 4096 {
-					exact = false
-				}
 				nrep += len(obs[i].Replies)
 				srcs[string(d.ip16())] = true
 			}
